@@ -10,7 +10,7 @@ BUDGET = {"quick": 170, "thorough": 1500}
 
 
 def gen_cases(tier, seed):
-    total = 2500 if tier == "quick" else 40000
+    total = 4000 if tier == "quick" else 48000
     for i in range(total):
         rng = Rng(derive(seed, PROP, "hist", i))
         g = gens.generate(rng, family="classes")
